@@ -2,6 +2,8 @@ package rules
 
 import (
 	"fmt"
+	"go/types"
+	"sort"
 	"strings"
 
 	"golang.org/x/tools/go/ssa"
@@ -17,6 +19,7 @@ func init() {
 		Explain: "Decides the structural half of 'a removed key is gone': PruningStorer.Remove must attempt the removal in EVERY active persister " +
 			"(the loop over activePersisters that calls persister.Remove has no exit other than exhaustion of the range or a definite error return), and must remove the key from the cache on every path. " +
 			"A Remove that stops at the first persister leaves the key readable from an older active epoch. " +
+			"Every pass of the Remove loop calls Remove on that pass's persister (no persister skipped); the key of every delete from persistersMapByEpoch in closePersisters is computed from the current epoch and numOfEpochsToKeep only. " +
 			"Not decided (value-level): the window arithmetic of changeEpoch/closePersisters, i.e. which epochs are active.",
 		Run: runC30,
 	})
@@ -54,7 +57,21 @@ func runC30(c *core.Ctx) {
 		}
 		c.Check(bad == "", "C30/remove-in-all-active-persisters", name, in.Pos(),
 			"loop over activePersisters leaves only on range exhaustion (or a definite error)", bad)
+		// and no persister is skipped: every pass of the loop reaches the Remove call
+		var start *ssa.BasicBlock
+		for _, s2 := range l.Header.Succs {
+			if l.Body[s2] {
+				start = s2
+			}
+		}
+		rm := in
+		esc, path := core.PathQ{Fn: fn, FromBlk: start, Via: func(x ssa.Instruction) bool { return x == rm },
+			Target: func(x ssa.Instruction, _ *ssa.BasicBlock) bool { return x == l.Header.Instrs[0] }}.Escape()
+		c.Check(esc == nil, "C30/remove-in-all-active-persisters", name+"/every-pass", in.Pos(),
+			"every pass of the loop calls Remove on that pass's persister",
+			"a pass of the loop goes on to the next persister without calling Remove ("+c.P.PathString(path)+"): the key survives in the skipped persister and is still returned by Get/Has")
 	}
+	c30CleanupWindow(c)
 	c.Floor("C30/remove-in-all-active-persisters", 1)
 
 	// S2: the cache entry is removed on every path to a return
@@ -115,4 +132,48 @@ func firstPos(b *ssa.BasicBlock) (p tokenPos) {
 		}
 	}
 	return 0
+}
+
+// c30CleanupWindow: which epochs closePersisters forgets is decided by the configured number of
+// epochs to keep: the key of every delete from persistersMapByEpoch derives from the
+// numOfEpochsToKeep field (a window computed from another field drops epochs that were promised).
+func c30CleanupWindow(c *core.Ctx) {
+	fn := anchorM(c, "storage/pruning", "PruningStorer", "closePersisters")
+	if fn == nil {
+		return
+	}
+	c.Analysed(fname(fn))
+	keep := c.P.Field("storage/pruning", "PruningStorer", "numOfEpochsToKeep")
+	if keep == nil {
+		c.Undecided("anchor", "PruningStorer.numOfEpochsToKeep", fn.Pos(), "field not found")
+		return
+	}
+	n := 0
+	core.Instrs(fn, func(in ssa.Instruction) {
+		call, ok := in.(*ssa.Call)
+		if !ok {
+			return
+		}
+		b, ok := call.Call.Value.(*ssa.Builtin)
+		if !ok || b.Name() != "delete" || !isFieldOf(call.Call.Args[0], "persistersMapByEpoch") {
+			return
+		}
+		n++
+		fromKeep := false
+		var others []string
+		for x := range core.BackwardReachPure(call.Call.Args[1]) {
+			if _, f := core.FieldLoad(x); f != nil {
+				if f == keep {
+					fromKeep = true
+				} else if bt, isB := f.Type().Underlying().(*types.Basic); isB && bt.Info()&types.IsInteger != 0 {
+					others = append(others, f.Name())
+				}
+			}
+		}
+		sort.Strings(others)
+		c.Check(fromKeep && len(others) == 0, "C30/cleanup-window-from-epochs-to-keep", fmt.Sprintf("PruningStorer.closePersisters/delete#%d", n), in.Pos(),
+			"the epoch forgotten is computed from the current epoch and numOfEpochsToKeep only",
+			fmt.Sprintf("the epoch forgotten by the cleanup is computed from %v (numOfEpochsToKeep involved: %v): epochs inside the keep window are dropped, GetFromEpoch fails for data that was promised", others, fromKeep))
+	})
+	c.Floor("C30/cleanup-window-from-epochs-to-keep", 1)
 }
